@@ -24,8 +24,8 @@ RULE = (
     "otherwise empty schema, or only heard: periodic I|1F09/2309/30C9) x a loss mask over the schema-relevant exchanges "
     "(0005/000C: request lost / reply lost) of the first polling round (light, 15 %) or the first two (heavy, 40 %), the "
     "round after that being fault-free; in half of the faulty cases the protocol's writing is also paused (flow control) 1-3 times "
-    "for 0.2-5 s during the first half minute. Run length: until converged and stable (>= 20 virtual minutes), at most 26 h (50 h "
-    "for heavy masks); a probe that failed - lost, or timed out in a congested send queue - is repeated 24 h later. "
+    "for 0.2-5 s during the first half minute. Run length: until converged and stable (>= 20 virtual minutes), at most 50 h (74 / 98 h "
+    "for light / heavy masks); a probe that failed - lost, or timed out in a congested send queue - is repeated 24 h later. "
     "Non-trivial = >= 2 zones of different "
     "classes or DHW present, or >= 1 schema-relevant exchange lost for good in the first round; distinct by (config, mask)."
 )
@@ -265,7 +265,8 @@ async def _run(loop: Any, case: dict) -> dict:
         loop.call_later(at + dur, gwy._protocol.resume_writing)
     obs: dict[str, Any] = {"samples": []}
     # a failed probe (lost, or timed out behind a congested send queue) is repeated at the next polling round, 24 h later
-    horizon = case.get("horizon") or (50 * 3600 if case["faults"] == "heavy" else 26 * 3600)
+    # (and the repeat can itself time out in the burst of polls that opens every round: seen once in 14k cases - round 3 then)
+    horizon = case.get("horizon") or {"none": 50, "light": 74, "heavy": 98}[case["faults"]] * 3600
     try:
         t = 0.0
         while t < horizon:
@@ -286,6 +287,18 @@ async def _run(loop: Any, case: dict) -> dict:
         obs["n_schema_requests"] = ctl.n_schema_tx
         obs["n_lost"] = ctl.n_lost
         obs["ran_s"] = t
+        dead = []
+        ents = list(gwy.devices) + list(gwy.systems)
+        for tcs in gwy.systems:
+            ents += list(tcs.zones) + ([tcs.dhw] if tcs.dhw else [])
+        for e in ents:
+            p = getattr(e, "_discovery_poller", None)
+            if p is not None and p.done():
+                dead.append((str(e.id), "cancelled" if p.cancelled() else repr(p.exception())[:160]))
+        obs["dead_pollers"] = dead
+        if case.get("debug_zone"):
+            z = gwy.tcs.zone_by_idx.get(case["debug_zone"])
+            obs["debug"] = {h: (str(t["next_due"]), t["failures"], str(t["interval"])) for h, t in (z.discovery_cmds.items() if z else [])}
     finally:
         await stack.stop_gateway(gwy)
         eth.close()
@@ -383,7 +396,7 @@ def run(ctx: Ctx, col: Collector) -> None:
         "the controller is a reference model written for this check (one conforming evohome; reply formats taken from the corpus); it answers 0005/000C and the common state requests and stays silent on the rest",
         "compared are the components the statement names: zones{class, sensor, actuators}, stored_hotwater{sensor, hotwater_valve, heating_valve}, system.appliance_control",
         "loss masks apply to the schema-relevant requests (0005/000C) only; eavesdropping off; one gateway, one controller; UFH zones not generated",
-        "virtual time: 20 min without faults; 26 h / 50 h with light / heavy faults (the 0005/000C poll interval is 24 h)",
+        "virtual time: until converged and stable, at most 50 h without faults and 74 / 98 h with light / heavy faults (the 0005/000C poll interval is 24 h; a repeated probe can time out again in the burst that opens a round)",
     ]
     ctx.parallel(explore, ctx.shards(ctx.n(400, 12_000), per_shard_min=5, size="small"), col)  # <= 5 zones, no faults: minutes of virtual time
     ctx.parallel(explore, ctx.shards(ctx.n(32, 2_000), per_shard_min=1, size="any"), col)  # large systems and loss masks: up to 50 virtual hours
